@@ -9,7 +9,7 @@ ENV = dict(os.environ, GOFLAGS="-mod=mod", GOPROXY="off", GOSUMDB="off", GOTOOLC
 PKGDIR = {"bitmap_test": "plugins/allocators/bitmap", "bitmap": "plugins/allocators/bitmap", "prefix_test": "plugins/prefix", "prefix": "plugins/prefix",
           "rangeplugin_test": "plugins/range", "rangeplugin": "plugins/range", "file_test": "plugins/file", "file": "plugins/file",
           "allocators_test": "plugins/allocators", "allocators": "plugins/allocators", "server_test": "server", "server": "server",
-          "config_test": "config", "config": "config", "plugins_test": "plugins", "plugins": "plugins", "serverid_test": "plugins/serverid", "serverid": "plugins/serverid"}
+          "config_test": "config", "config": "config", "plugins_test": "plugins", "plugins": "plugins", "serverid_test": "plugins/serverid", "serverid": "plugins/serverid", "dns_test": "plugins/dns", "dns": "plugins/dns", "mtu_test": "plugins/mtu", "nbp_test": "plugins/nbp", "nbp": "plugins/nbp", "leasetime_test": "plugins/leasetime", "leasetime": "plugins/leasetime", "ipv6only_test": "plugins/ipv6only", "ipv6only": "plugins/ipv6only", "autoconfigure_test": "plugins/autoconfigure", "autoconfigure": "plugins/autoconfigure", "router_test": "plugins/router", "netmask_test": "plugins/netmask", "netmask": "plugins/netmask", "searchdomains_test": "plugins/searchdomains", "searchdomains": "plugins/searchdomains", "staticroute_test": "plugins/staticroute", "staticroute": "plugins/staticroute", "sleep_test": "plugins/sleep", "mtu": "plugins/mtu", "router": "plugins/router", "sleep": "plugins/sleep", "seedout": "seed_out"}
 
 
 def sh(cmd, cwd, timeout=900):
